@@ -55,6 +55,29 @@ var gens = []generator{
 	{file: "PanicSites.lean", src: "the parser files anchored by C07", run: genPanicSites},
 	{file: "CacheFile.lean", src: "cmd/cache/header.go, cmd/cache/file.go, cmd/gts/io.go", run: genCacheFile},
 	{file: "KeyEnc.lean", src: "cmd/gts/io.go (exact, encodePayload)", run: genKeyEnc},
+	{file: "GoList.lean", src: "(fixed prelude: Go's slice and map operations on lists)", run: genGoList},
+	{file: "SortSearch.lean", src: "$GOROOT/src/sort/search.go (sort.Search)", run: genSortSearch},
+	{file: "FeatLess.lean", src: "feature.go (FeatureSlice.Less)", run: genFeatLess},
+	{file: "FeatInsert.lean", src: "feature.go (FeatureSlice.Insert)", run: genFeatInsert},
+	{file: "FeatFilter.lean", src: "feature.go (filter constructors, FeatureSlice.Filter)", run: genFeatFilter},
+	{file: "FeatSelector.lean", src: "feature.go (shiftSelector, toQualifier)", run: genFeatSelector},
+	{file: "FeatRepair.lean", src: "feature.go (Repair)", run: genFeatRepair},
+	{file: "SeqPrelude.lean", src: "(fixed prelude: how a Sequence and the non-byte slices are read)", run: genSeqPrelude},
+	{file: "SeqFilter.lean", src: "feature.go (filter combinators, FeatureSlice.Filter)", run: genSeqFilter},
+	{file: "SeqInsert.lean", src: "sequence.go (insert, Insert, Embed)", run: genSeqInsert},
+	{file: "SeqDelete.lean", src: "sequence.go (Delete, Erase)", run: genSeqDelete},
+	{file: "SeqRotate.lean", src: "sequence.go (Rotate)", run: genSeqRotate},
+	{file: "SeqSlice.lean", src: "sequence.go (Slice)", run: genSeqSlice},
+	{file: "SeqConcat.lean", src: "sequence.go (Concat)", run: genSeqConcat},
+	{file: "SeqReverse.lean", src: "sequence.go (Reverse)", run: genSeqReverse},
+	{file: "SeqComplement.lean", src: "nucleotide.go (replaceBytes, Complement, Transcribe)", run: genSeqComplement},
+	{file: "CliList.lean", src: "(fixed prelude of the CLI-step / locator translator: checked slice operations, map-as-set, sort.Ints, strings.IndexByte)", run: genCliList},
+	{file: "CliDelete.lean", src: "cmd/gts/delete.go (the per-record step)", run: genCliDelete},
+	{file: "CliInsert.lean", src: "cmd/gts/insert.go, infix.go (the per-record steps)", run: genCliInsert},
+	{file: "CliSplit.lean", src: "cmd/gts/split.go (the per-record step)", run: genCliSplit},
+	{file: "CliRotate.lean", src: "cmd/gts/rotate.go (the per-record step)", run: genCliRotate},
+	{file: "CliExtract.lean", src: "cmd/gts/extract.go (containsRegion, the per-record step)", run: genCliExtract},
+	{file: "Locator.lean", src: "locator.go (the locator constructors, tryLocation, AsLocator)", run: genLocator},
 }
 
 func writeIfChanged(path string, content []byte) (bool, error) {
